@@ -28,6 +28,7 @@ fn main() {
         "exec" => exec_child(&a.rest),
         "check" => run(&a),
         "replay" => replay(&a),
+        "modeltest" => modeltest(&a.rest),
         _ => vhcore::machinery_failure("usage: c24 check C24 --tier quick|thorough"),
     };
     std::process::exit(code);
@@ -220,12 +221,17 @@ fn judge(script: &[Ev], r: &ExecResult) -> Vec<(String, String)> {
 // Parent: explorer over child executions
 
 fn run_child(script: &[Ev], prefix: &[usize], work: &Path) -> Result<ExecResult, String> {
+    run_child_follow(script, prefix, work, None)
+}
+
+fn run_child_follow(script: &[Ev], prefix: &[usize], work: &Path, follow: Option<&[String]>) -> Result<ExecResult, String> {
     let exe = std::env::current_exe().unwrap();
     let mut child = std::process::Command::new(exe)
         .arg("exec")
         .arg(script_name(script))
         .arg(serde_json::to_string(prefix).unwrap())
         .arg(work)
+        .arg(follow.map(|f| serde_json::to_string(f).unwrap()).unwrap_or_else(|| "null".into()))
         .stdout(std::process::Stdio::piped())
         .stderr(std::process::Stdio::null())
         .spawn()
@@ -338,6 +344,105 @@ fn run(a: &vhcore::Args) -> i32 {
             rep.violation(&format!("{k}|{}", shape(sc)), &format!("[{name}] {w}"), j);
         }
     }
+    // ---- E-model: unbounded exploration of the protocol model, bound to the code by replay ----
+    let mut model_info = vec![];
+    let mut model_replays = 0u64;
+    let mut model_conforms = true;
+    let calib = run_child(&[Ev::Open], &[], &work.join("calib"));
+    let abort_checks = match &calib {
+        Ok(r) => {
+            let labels: Vec<&str> = r.trace.iter().filter(|e| e.kind == "grant" && e.tid == 1).map(|e| e.label.as_str()).collect();
+            let from = labels.iter().position(|l| *l == "W:set_compiling").unwrap_or(0);
+            let to = labels.iter().position(|l| l.starts_with("W:finish_")).unwrap_or(labels.len());
+            labels[from..to].iter().filter(|l| **l == "W:abort_check").count() as u8
+        }
+        Err(e) => vhcore::machinery_failure(&format!("calibration run failed: {e}")),
+    };
+    let model_scripts: Vec<&Vec<Ev>> = scs.iter().filter(|s| s.len() <= if thorough { 4 } else { 3 }).collect();
+    for sc in model_scripts {
+        let name = script_name(sc);
+        let m = vh_lsp::c24model::Model {
+            script: sc
+                .iter()
+                .map(|e| match e {
+                    Ev::Open => vh_lsp::c24model::Ev::Open,
+                    Ev::Change => vh_lsp::c24model::Ev::Change,
+                    Ev::Save => vh_lsp::c24model::Ev::Save,
+                    Ev::Wait => vh_lsp::c24model::Ev::Wait,
+                })
+                .collect(),
+            abort_checks,
+        };
+        let ex = vh_lsp::c24model::explore(&m, if thorough { 400 } else { 12 });
+        let mut paths: Vec<(Option<Vec<&'static str>>, Vec<String>)> = ex.witnesses.iter().map(|(v, p)| (Some(v.clone()), p.clone())).collect();
+        paths.extend(ex.edge_cover.iter().map(|p| (None, p.clone())));
+        let results: Vec<Result<ExecResult, String>> = vhcore::par_map_idx(paths.len(), a.jobs, |i| {
+            let id = COUNTER.fetch_add(1, Ordering::Relaxed);
+            run_child_follow(sc, &[], &work.join(format!("m{id}")), Some(&paths[i].1))
+        });
+        let mut diverged = 0usize;
+        for ((want, path), r) in paths.iter().zip(results) {
+            model_replays += 1;
+            match r {
+                Err(e) => {
+                    diverged += 1;
+                    if model_conforms {
+                        eprintln!("[C24] MODEL-DIVERGENCE on script {name}: {e}");
+                    }
+                    model_conforms = false;
+                }
+                Ok(res) => {
+                    if res.points.len() != path.len() {
+                        diverged += 1;
+                        if model_conforms {
+                            eprintln!("[C24] MODEL-DIVERGENCE on script {name}: model trace has {} steps, the server made {}", path.len(), res.points.len());
+                        }
+                        model_conforms = false;
+                        continue;
+                    }
+                    let real: Vec<String> = res.verdicts.iter().map(|(k, _)| k.clone()).collect();
+                    if let Some(w) = want {
+                        let norm = |k: &str| -> &'static str {
+                            if k.contains("|hang|") {
+                                "hang"
+                            } else if k.contains("no-compilation-completed") {
+                                "stale:no-compilation-completed"
+                            } else {
+                                "stale:last-completed-compilation-predates-last-edit"
+                            }
+                        };
+                        let mut rv: Vec<&'static str> = real.iter().map(|k| norm(k)).collect();
+                        rv.sort();
+                        let mut wv = w.clone();
+                        wv.sort();
+                        if rv != wv {
+                            diverged += 1;
+                            if model_conforms {
+                                eprintln!("[C24] MODEL-DIVERGENCE on script {name}: model verdicts {wv:?}, server verdicts {rv:?}");
+                            }
+                            model_conforms = false;
+                            continue;
+                        }
+                    }
+                    // a model counterexample confirmed by its replay on the real server
+                    for (k, wtxt) in &res.verdicts {
+                        rep.violation(
+                            &format!("{k}|{}", shape(sc)),
+                            &format!("[{name}] (found by the unbounded model, confirmed by replay on the server) {wtxt}"),
+                            json!({"script": name, "follow": path, "terminal": res.terminal}),
+                        );
+                    }
+                }
+            }
+        }
+        eprintln!("[C24] model {name}: states={} transitions={} terminals={} replayed={} diverged={diverged}", ex.states, ex.transitions, ex.terminals, paths.len());
+        model_info.push(json!({"script": name, "model_states": ex.states, "model_transitions": ex.transitions, "model_terminal_states": ex.terminals, "traces_replayed_on_server": paths.len(), "diverged": diverged, "edge_cover_complete": ex.edge_cover.len() < if thorough { 400 } else { 12 }}));
+    }
+    rep.set("model", json!({"abort_checks_per_compile_calibrated": abort_checks, "conforms": model_conforms, "per_script": model_info}));
+    if !model_conforms {
+        rep.cap("E-model does not conform to the server on at least one replayed trace (MODEL-DIVERGENCE): its results are ignored; the verdict rests on E-sched alone");
+    }
+    total_exec += model_replays;
     if outcomes.len() < 2 {
         vhcore::machinery_failure("vacuous: fewer than 2 distinct terminal observations");
     }
@@ -413,4 +518,34 @@ fn replay(a: &vhcore::Args) -> i32 {
         }
     }
     1
+}
+
+/// Debug aid: explore the model of one script and replay a few of its traces on the server.
+fn modeltest(args: &[String]) -> i32 {
+    let sc = parse_script(&args[0]);
+    let abort_checks: u8 = args.get(1).and_then(|s| s.parse().ok()).unwrap_or(1);
+    let m = vh_lsp::c24model::Model {
+        script: sc
+            .iter()
+            .map(|e| match e {
+                Ev::Open => vh_lsp::c24model::Ev::Open,
+                Ev::Change => vh_lsp::c24model::Ev::Change,
+                Ev::Save => vh_lsp::c24model::Ev::Save,
+                Ev::Wait => vh_lsp::c24model::Ev::Wait,
+            })
+            .collect(),
+        abort_checks,
+    };
+    let ex = vh_lsp::c24model::explore(&m, 5);
+    println!("states={} transitions={} terminals={} witnesses={} cover={}", ex.states, ex.transitions, ex.terminals, ex.witnesses.len(), ex.edge_cover.len());
+    let work = vhcore::work_dir("C24-modeltest");
+    let mut paths: Vec<(String, Vec<String>)> = ex.witnesses.iter().map(|(v, p)| (format!("{v:?}"), p.clone())).collect();
+    paths.extend(ex.edge_cover.iter().take(3).map(|p| ("cover".to_string(), p.clone())));
+    for (i, (what, p)) in paths.iter().enumerate() {
+        match run_child_follow(&sc, &[], &work.join(format!("m{i}")), Some(p)) {
+            Ok(r) => println!("{what}: model steps {} server steps {} server verdicts {:?}", p.len(), r.points.len(), r.verdicts.iter().map(|v| v.0.clone()).collect::<Vec<_>>()),
+            Err(e) => println!("{what}: DIVERGENCE {e}\n   model path: {}", p.join(" ")),
+        }
+    }
+    0
 }
